@@ -91,13 +91,14 @@ $(BUILD)/pdu_sim.o: harness/pdu_sim.cpp harness/nrf_front.hpp sim/sim.hpp shim/n
 
 # ---- stack_sim: one source compiled in five parts (link layer configurations 0-2 + harness, 3-4, 5-6, 7-9, 10-11) so that they build in parallel;
 # parts 3 and 4 put the real nRF52 front end between link layer and world (harness/nrf_bridge.hpp)
-STACK_PARTS := $(BUILD)/stack_sim_p0.o $(BUILD)/stack_sim_p1.o $(BUILD)/stack_sim_p2.o $(BUILD)/stack_sim_p3.o $(BUILD)/stack_sim_p4.o
+STACK_PARTS := $(BUILD)/stack_sim_p0.o $(BUILD)/stack_sim_p1.o $(BUILD)/stack_sim_p2.o $(BUILD)/stack_sim_p3.o $(BUILD)/stack_sim_p4.o $(BUILD)/stack_sim_p5.o
 $(BUILD)/stack_sim_p%.o: harness/stack_sim.cpp harness/stack_world.hpp harness/sim_radio.hpp harness/nrf_bridge.hpp sim/sim.hpp shim/nrf.h
 	@mkdir -p $(dir $@)
-	$(CXX) $(CXXFLAGS) $(SM_INCLUDES) -DSTACK_PART=$* -MMD -c $< -o $@
+	$(CXX) $(CXXFLAGS) -Wno-deprecated-declarations $(SM_INCLUDES) -DSTACK_PART=$* -MMD -c $< -o $@
 
-$(BUILD)/stack_sim: $(STACK_PARTS) $(BUILD)/sim.o $(REPO_OBJS)
-	$(CXX) $^ $(LDFLAGS) -o $@
+# (part 5 links the binding's security tool box: see sm_sim for -no-pie)
+$(BUILD)/stack_sim: $(STACK_PARTS) $(BUILD)/sim.o $(REPO_OBJS) $(BUILD)/repo/security_tool_box.o $(BUILD)/repo/uECC.o
+	$(CXX) $^ $(LDFLAGS) -no-pie -lcrypto -o $@
 
 clean:
 	rm -rf $(BUILD)
